@@ -4,7 +4,7 @@
 patch="$1"; shift
 props="$*"
 [ -z "$props" ] && props="all"
-wt=/tmp/pane_mut_wt
+wt=${MUT_WT:-/tmp/pane_mut_wt}
 if [ ! -d "$wt" ]; then git -C /repo worktree add -q --detach "$wt" HEAD || exit 2; fi
 git -C "$wt" checkout -q --detach "$(git -C /repo rev-parse HEAD)" && git -C "$wt" checkout -q -- . && git -C "$wt" clean -fdq
 if ! git -C "$wt" apply "$patch"; then echo "PATCH-DOES-NOT-APPLY $patch"; exit 3; fi
